@@ -33,6 +33,9 @@ where
 {
     #[inline]
     pub(crate) fn try_read(flags: Flags, reader: &mut impl Reader<T>) -> DecodeResult<Self> {
+        const FLAGS_LENGTH: usize = 2;
+        let length_after_flags = reader.len();
+
         let mut minimal_length_minus_flags = 4;
         if flags.has_length() {
             minimal_length_minus_flags += 2;
@@ -74,16 +77,20 @@ where
 
         let payload_length;
         if let Some(length) = maybe_length {
-            let minimal_length = minimal_length_minus_flags + 2;
-            if length as usize > reader.len() + minimal_length {
+            // The length field counts from the first flag octet, so the payload is
+            // what remains of it after the header (and offset padding) read so far
+            let header_length = FLAGS_LENGTH + (length_after_flags - reader.len());
+            if (length as usize) < header_length
+                || length as usize - header_length > reader.len()
+            {
                 return Err(DecodeError::IncompleteDataMessagePayload);
             }
-            payload_length = length as usize;
+            payload_length = length as usize - header_length;
         } else {
             payload_length = reader.len();
         }
 
-        if reader.is_empty() {
+        if payload_length == 0 {
             return Err(DecodeError::EmptyDataMessagePayload);
         }
 
